@@ -9,12 +9,17 @@ CLAIMED = {
         category='proof',
         text='Machine definition in Coq (Spec/MachineSpec.v); Qed-closed refinement theorems C01_featured / C01_fast: the '
              'transcriptions of _run_featured and _run_fast (Model/EngPy.v) compute exactly the machine definition for every '
-             'width >= 8, image representation, input and step count; the native engine is tied to the definition by the '
-             'differential campaign (and by Model/EngNative.v where its refinement is proved); every campaign case is '
-             'evaluated inside Coq (vm_compute) on the definition and on the engine models.',
+             'width >= 8, image representation, input and step count; C01_native_* (Properties/C01_native.v): the executable '
+             'transcription of _fjcore.c (flat/hybrid/paged storage, page cache, flat, paged, ring and measured loops, storage '
+             'decision, loader, ring read-out) refines the machine definition for all images, inputs and knobs '
+             '(C01_native_end_to_end); every campaign case is evaluated inside Coq (vm_compute) on the definition and on the '
+             'three engine models.',
         design_ref='DESIGN.md section 4, C01',
         note='Coq kernel + vm_compute; hand transcriptions tied to the code by per-run correspondence on generated images x '
-             '3 engines; C text, compiler and CPython not modelled; known finding F1 (w=64 top-of-address-space wrap).',
+             '3 engines (cause/ops/fault/output/last-ops/read-back/storage mode); the native theorems are guarded only by '
+             'top_guard = known finding F1 (no op in the last 2w bits at w=64; C01_native_refuted is the witness); the slot '
+             'table is abstracted as a finite map, OOM/signals/IO-callback exceptions are not modelled; C text, compiler and '
+             'CPython are tied by the campaign, not proved.',
         technique='Coq refinement proofs (engine models = machine definition) + model/implementation correspondence evaluated in Coq'),
     'C02': dict(
         category='proof',
@@ -88,24 +93,32 @@ CLAIMED = {
         technique='Coq theorems on an expression model + regenerated-facts tie + exhaustive pair / random correspondence'),
     'C07': dict(
         category='proof',
-        text='Every observable (cause, ops, fault address, output, last-ops list, final in-segment words read back through '
-             'DeviceMemory) of the native engine under random storage knobs (flat window sizes, forced paged, measurement '
-             'loop, ring lengths) and of the fast engine is compared inside Coq with the single machine definition, whose '
-             'halting result is proved unique; layout independence is the corollary "all equal the definition".',
+        text='C07_native_layout_independent / C07_native_loops_ok / C07_native_decide_storage / C01_native_ring_readout '
+             '(Properties/C01_native.v, Qed): for every image, input, flat-window limit, forced-paged, ring length and '
+             'measurement setting the transcription of _fjcore.c yields the observables of the one machine definition '
+             '(cause, ops, fault address, output, last-ops list = last k started ops, final memory through the representation '
+             'relation), hence the same for any two layouts. Every observable of the real native engine under random and '
+             'directed knobs, and of the fast engine, is compared inside Coq with the definition and with the transcription.',
         design_ref='DESIGN.md section 4, C07',
-        note='Universal statement proved for the definition and the Python engines (C01 theorems); for the C storage layouts the '
-             'tie is the correspondence campaign with directed geometry (page edges, window edges, 2^20..2^58, fill-constant '
-             'collisions); known finding F1; F14 fixed.',
+        note='The theorems are about the hand transcription Model/EngNative.v; the C text is tied to it on every run by the '
+             'campaign with directed geometry (page edges, cache-slot collisions, window edges, 2^20..2^58, fill-constant '
+             'collisions, tiny windows with input, ring + flat lane, measured loop at the input window); guard top_guard = '
+             'known finding F1; F14 fixed.',
         technique='Coq machine definition + correspondence of the native engine under all storage knobs evaluated in Coq'),
     'C11': dict(
         category='proof',
-        text='Index-arithmetic safety is stated on a Gallina model of _fjcore.c with checked array accesses (coq/Model/NativeSafe.v '
-             'when built); ownership of Python objects and host-crash freedom are runtime facts decided dynamically by an '
-             'ASan+UBSan build of the current _fjcore.c driven with adversarial segment tables, knobs and device/API call '
-             'sequences.',
+        text='Proof for the index arithmetic of the Gallina model Model/NativeSafe.v of _fjcore.c (every array length-carrying, '
+             'every access checked): no out-of-bounds index, NULL dereference, exhausted probe/search loop or dangerous size '
+             'wrap, for all images, inputs, flat limits, allocator behaviours, get_word/set_word device sequences and any value '
+             'an overflowing u64 computation wraps to (C11_no_oob_calls, _decide_storage, _run, _api_run, C11_probe_terminates, '
+             'C11_ring_in_range, C11_no_wild_wrap). Ownership of Python objects and host-crash freedom rest on dynamic evidence: '
+             'ASan+UBSan build of the current _fjcore.c driven with adversarial tables, knobs, device and API call sequences, '
+             'and a sys.getrefcount probe around every run()/set_words() incl. error paths.',
         design_ref='DESIGN.md section 4, C11',
-        note='partial: the theorem covers the model\'s index arithmetic; reference counts, allocator and CPython C-API behaviour '
-             'are only exercised under sanitizers.',
+        note='partial: the model is tied to the C text by evaluating every direct-API call sequence inside Coq (result class, '
+             'allocated_bytes, storage_mode, get_word values, run results). Assumptions: no allocation exceeds PTRDIFF_MAX; '
+             'callbacks re-enter only get_word/set_word (re-entering run/__init__ from a callback is unsafe and outside the '
+             'property); CPython object creation and libc qsort are not modelled; F1 is a wrong result, not a wild access.',
         technique='Coq proof of index safety on a checked-array model + sanitizer campaign on the real C code'),
     'C15': dict(
         category='proof',
